@@ -74,6 +74,7 @@ func runC14(p *chk.Prog, r *chk.Report) {
 	c14Families(p, r)
 	c14Validate(p, r, frrPkg)
 	c14Merge(p, r)
+	c14Keys(p, r)
 	x := r.Rule("LOCK-GUARDED", "C locks (must-hold lockset dataflow)", "frr.sessionManager.{sessions,bfdProfiles,extraConfig} and frr.session.advertised are accessed only with the session manager's mutex held (createConfig and the session (un)registration through their callers)", 12)
 	guardedRule(x, p, c19Table[:2])
 }
@@ -515,6 +516,33 @@ func c14Families(p *chk.Prog, r *chk.Report) {
 			}
 		}
 	}
+	// large communities go to the large sets and lists only, standard ones to the standard sets and lists only
+	isLarge := g.GPat(true, "community.IsLarge(C)")
+	notLarge := g.GPat(false, "community.IsLarge(C)")
+	for _, set := range []string{"CommunitiesV4", "CommunitiesV6", "LargeCommunitiesV4", "LargeCommunitiesV6"} {
+		want := notLarge
+		if strings.HasPrefix(set, "Large") {
+			want = isLarge
+		}
+		sites := append([]chk.Site{}, g.FindPat("P."+set+".Insert(V)")...)
+		sites = append(sites, aliasSites[set]...)
+		for _, s := range sites {
+			x.Check(set+":by-community-kind", s.Pos(), g.Dominated(s, want), "", set+" receives a community of the other kind (a large community is also announced as a standard one, or the reverse): the route-map sets an attribute nobody requested")
+		}
+	}
+	for _, s := range g.Find(f.IsAssignPat("L", "append(L, C.String())")) {
+		as := s.Node.(*ast.AssignStmt)
+		id, isId := as.Lhs[0].(*ast.Ident)
+		if !isId {
+			continue
+		}
+		// which list of the advertisement literal does this local feed?
+		for fld, want := range map[string]chk.Guard{"Communities": notLarge, "LargeCommunities": isLarge} {
+			if len(g.FindPat("advertisementConfig{"+fld+": L}", chk.H("L", f.IsObj(f.ObjOf(id))))) > 0 {
+				x.Check("advertisement."+fld+":by-community-kind", s.Pos(), g.Dominated(s, want), "", "the advertisement's "+fld+" list receives a community of the other kind")
+			}
+		}
+	}
 	for _, c := range []struct{ fam, m, flag string }{{"IPv4", "ipV4Prefixes", "HasV4Advertisements"}, {"IPv6", "ipV6Prefixes", "HasV6Advertisements"}} {
 		caseG := g.GPat(true, "F == ipfamily."+c.fam, chk.H("F", fam))
 		ins := g.Find(f.IsAssignPat("R."+c.m+"[P]", "P"))
@@ -585,6 +613,37 @@ func c14Validate(p *chk.Prog, r *chk.Report, pkg string) {
 		w := g.BranchAlways(e, f.IsAssignPat("RECV.advertised", "OLD", chk.H("OLD", old)))
 		w2 := g.BranchAlways(e, func(n ast.Node) bool { return isErrReturn(f, n) })
 		okRB = !w.Found && !w2.Found
+	}
+	// success means stored and generated: a nil return is reached only behind the store of the new list and a successful
+	// generation - or behind a comparison of the whole old and new lists (nothing to do)
+	if newList != nil {
+		isStore := func(n ast.Node) bool {
+			for _, s := range stores {
+				if n == s.Top {
+					return true
+				}
+			}
+			return false
+		}
+		oldL := func(e ast.Expr) bool {
+			return f.MatchWith("RECV.advertised", e, chk.H("RECV", isRecv(f))) != nil || definedBy(g, "RECV.advertised")(e)
+		}
+		newL := f.IsObj(newList)
+		unchanged := chk.GSame(g.GPat(true, "reflect.DeepEqual(O, N)", chk.H("O", oldL), chk.H("N", newL)), g.GPat(true, "reflect.DeepEqual(N, O)", chk.H("O", oldL), chk.H("N", newL)),
+			g.GPat(true, "slices.EqualFunc(O, N, F)", chk.H("O", oldL), chk.H("N", newL)), g.GPat(true, "slices.EqualFunc(N, O, F)", chk.H("O", oldL), chk.H("N", newL)))
+		done := chk.GOr(chk.GAnd(chk.GEvent(isStore), g.GErrNil(true, gen)), unchanged)
+		okDone := true
+		wherePos := f.Pos()
+		for _, rt := range g.Returns() {
+			rr := retResults(rt)
+			if len(rr) != 1 || !f.IsNilLit(rr[0]) {
+				continue
+			}
+			if !g.Dominated(rt, done) {
+				okDone, wherePos = false, rt.Pos()
+			}
+		}
+		x.Check(pkg+":Set:success-means-stored-and-generated", wherePos, okDone, "", "Set can report success without having stored the requested list and generated the configuration from it (a shortcut that judges the request unchanged by anything weaker than equality of the whole lists loses withdrawn attributes)")
 	}
 	x.Check(pkg+":Set:rollback-on-generation-error", f.Pos(), okRB, "", "when the configuration cannot be generated Set returns the error but keeps the new advertisements (every later generation fails or silently applies them)")
 	vf := need(x, p, pkg, "", "validate")
@@ -741,5 +800,25 @@ func c14Merge(p *chk.Prog, r *chk.Report) {
 			}
 		}
 		x.Check("addToAdvertisements:merge-only-equal-prefix", af.Pos(), ok && okS, "", "an advertisement can be merged into an entry for a different prefix, or the insert position is not the sorted one")
+	}
+}
+
+// c14Keys: routers and neighbours are grouped by the strings RouterName / NeighborName build; two sessions that differ in
+// one of the identifying parameters must get different keys, so every parameter has to reach the result.
+func c14Keys(p *chk.Prog, r *chk.Report) {
+	x := r.Rule("KEY-COMPLETE", "A dataflow", "frr.NeighborName's result depends on every one of its parameters (peer address, interface - the only identity of an unnumbered peer -, ASN, dynamic ASN, VRF) and frr.RouterName's on source address, ASN and VRF: a parameter that does not reach the key merges distinct neighbours / routers into one configuration block, chosen by map order", 8)
+	for _, name := range []string{"NeighborName", "RouterName"} {
+		f := need(x, p, frrPkg, "", name)
+		if f == nil {
+			continue
+		}
+		reach := paramsInResults(f)
+		for i := 0; ; i++ {
+			pv := f.Param(i)
+			if pv == nil {
+				break
+			}
+			x.Check(name+":uses:"+pv.Name(), f.Pos(), reach[pv], "", "the key built by "+name+" does not depend on its parameter "+pv.Name()+": configurations that differ only there are merged")
+		}
 	}
 }
